@@ -1003,7 +1003,9 @@ def known_key(v):
 
 def select_c07(tier):
     tests, sites, unread, loose = corpus_tests()
+    import extra_sources
     fixed = corpus_std() + corpus_spec() + corpus_examples() + [dict(p) for p in PROBES]
+    fixed += [{"id": "extra:%d" % i, "lines": [x], "source": "generated"} for i, x in enumerate(extra_sources.EXTRA_SOURCES)]
     info = {"test_call_sites": sites, "test_call_sites_unread": unread, "test_sessions": len(tests),
             "test_other_literals": len(loose)}
     # Both tiers take the WHOLE corpus.  thorough analyses every function of every image; quick
